@@ -1,6 +1,5 @@
 // C17 conformance harness, part 1: ==, !=, <, <=, >, >= and hash of the fcppt value types.
-//
-//   c17_order OUT
+// (command line: see c17_main.cpp)
 //
 // For every listed type it enumerates values with components in {0,1,2} (several of them equal
 // but produced in different ways: after reset / assignment from another alternative / through
@@ -698,14 +697,8 @@ void references()
 }
 }
 
-int main(int argc, char **argv)
+void c17_order_records()
 {
-  if (argc < 2)
-  {
-    std::fprintf(stderr, "usage: c17_order OUT\n");
-    return 3;
-  }
-  vj::open(argv[1]);
   optional_int();
   optional_optional();
   either_int_long();
@@ -721,6 +714,4 @@ int main(int argc, char **argv)
   tree_int();
   raw_vector_int();
   references();
-  vj::close();
-  return 0;
 }
